@@ -285,10 +285,30 @@ func RunC03(args []string) *rep.Report {
 			// serves all cases of a key type, and every crafted response is preceded by the honest head of the same
 			// publisher being fetched and accepted (a two-step history: whatever the client remembers from a valid
 			// head must not make it accept an altered one).
-			shared := sharedSyncs[kt]
+			// client options in rotation: none; "authenticate the server's peer ID" (without a stream host the client falls back
+			// on plain HTTP, and the head's signer is still what identifies the publisher); the retrying HTTP client
+			ov := idx % 3
+			shared := sharedSyncs[fmt.Sprint(kt, ov)]
 			if shared == nil {
-				shared = ipnisync.NewSync(mkLinkSystem(), nil, ipnisync.ClientHTTPTimeout(5*time.Second))
-				sharedSyncs[kt] = shared
+				copts := []ipnisync.ClientOption{ipnisync.ClientHTTPTimeout(5 * time.Second)}
+				switch ov {
+				case 1:
+					copts = append(copts, ipnisync.ClientAuthServerPeerID(true))
+				case 2:
+					copts = append(copts, ipnisync.ClientHTTPRetry(2, time.Millisecond, 5*time.Millisecond))
+				}
+				shared = ipnisync.NewSync(mkLinkSystem(), nil, copts...)
+				sharedSyncs[fmt.Sprint(kt, ov)] = shared
+			}
+			// the publisher's address list as a caller may hand it over: the address alone, or with a nil entry before / after it
+			addrList := func() []multiaddr.Multiaddr {
+				switch (idx / 3) % 3 {
+				case 1:
+					return []multiaddr.Multiaddr{nil, hs.maddr()}
+				case 2:
+					return []multiaddr.Multiaddr{hs.maddr(), nil}
+				}
+				return []multiaddr.Multiaddr{hs.maddr()}
 			}
 			if honest, err := head.NewSignedHead(headCid(hc.Case.Head), topicOf(hc.Case.Topic), ids.KeyT(hc.Case.Pub, kt)); err == nil {
 				if henc, err := honest.Encode(); err == nil {
@@ -302,7 +322,7 @@ func RunC03(args []string) *rep.Report {
 				}
 			}
 			hs.set(enc)
-			syncer, err := shared.NewSyncer(peer.AddrInfo{ID: expected, Addrs: []multiaddr.Multiaddr{hs.maddr()}})
+			syncer, err := shared.NewSyncer(peer.AddrInfo{ID: expected, Addrs: addrList()})
 			if err != nil {
 				r.Inconclusive++
 				r.SetExtra("infra_example", err.Error())
@@ -319,7 +339,7 @@ func RunC03(args []string) *rep.Report {
 			}
 			// the same two steps on ONE Syncer (the subscriber keeps a publisher's Syncer while its addresses are unchanged):
 			// an honest head of the expected publisher, then the crafted response
-			if one, err := shared.NewSyncer(peer.AddrInfo{ID: expected, Addrs: []multiaddr.Multiaddr{hs.maddr()}}); err == nil {
+			if one, err := shared.NewSyncer(peer.AddrInfo{ID: expected, Addrs: addrList()}); err == nil {
 				for _, hname := range []string{"h1", "h2"} {
 					if honest, err := head.NewSignedHead(headCid(hname), topicOf(hc.Case.Topic), ids.KeyT(hc.Case.Expected, kt)); err == nil {
 						if henc, err := honest.Encode(); err == nil {
